@@ -151,6 +151,12 @@ type Obligation struct {
 }
 
 type Exec struct {
+	// panic mode (contract clause `panics P(args)`): a violated safety
+	// condition, a call into unknown code or an explicit panic is allowed, but
+	// only in a state satisfying P; execution continues on the other paths
+	panicFn    *ssa.Function
+	panicArgs  []Value
+	panicKnown map[int]bool
 	entryAllocs []*Term
 	epochDef    map[int][]epochPart
 	specCells   []specCell
@@ -279,6 +285,10 @@ func (x *Exec) safety(st *State, kind string, instr ssa.Instruction, detail stri
 	if x.specDepth > 0 {
 		return
 	}
+	if x.panicFn != nil && x.useMode == 0 {
+		x.panicPoint(st, instr.Pos(), kind+":"+detail, cond)
+		return
+	}
 	if kind == "nil" && cond.kind == kApp && cond.op == "not" {
 		// reference known to be a fresh allocation
 		eq := cond.args[0]
@@ -291,6 +301,55 @@ func (x *Exec) safety(st *State, kind string, instr ssa.Instruction, detail stri
 		}
 	}
 	x.oblige(st, kind, detail, cond, instr.Pos())
+}
+
+// panicPoint: in panic mode, the state must satisfy the panic predicate
+// wherever a panic may be raised (cond false, or unconditionally when cond is
+// nil); afterwards only the non-panicking paths continue.
+func (x *Exec) panicPoint(st *State, pos token.Pos, detail string, cond *Term) {
+	ts := x.w.ts
+	if cond != nil && cond.isTrue() {
+		return
+	}
+	p := x.evalPanicPred(st)
+	if !x.panicKnown[p.id] && !p.isTrue() {
+		goal := p
+		if cond != nil {
+			goal = ts.Or(cond, p)
+		}
+		// (oblige assumes its goal afterwards; harmless: cond is assumed below anyway)
+		x.oblige(st, "panicpt", detail, goal, pos)
+	}
+	if cond != nil {
+		x.assumeIn(st, cond)
+	}
+}
+
+func (x *Exec) evalPanicPred(st *State) *Term {
+	x.specDepth++
+	saved := x.panicFn
+	x.panicFn = nil
+	defer func() { x.specDepth--; x.panicFn = saved }()
+	res, nst := x.callFunction(saved, x.panicArgs, nil, st.clone())
+	if nst == nil {
+		unsup("panic predicate does not return")
+	}
+	return res[0].(*Term)
+}
+
+// establishPanicPred: the predicate is proved once at a point that dominates
+// what follows (function entry, loop head); identical instances later on are
+// then known without a query.
+func (x *Exec) establishPanicPred(st *State, pos token.Pos, where string) {
+	if x.panicFn == nil || x.useMode != 0 || x.specDepth > 0 {
+		return
+	}
+	p := x.evalPanicPred(st)
+	if x.panicKnown[p.id] {
+		return
+	}
+	x.oblige(st, "panicpt", where, p, pos)
+	x.panicKnown[p.id] = true
 }
 
 // ---------------------------------------------------------------------------
@@ -1154,6 +1213,11 @@ func (x *Exec) doPanic(fr *Frame, in *ssa.Panic, st *State) {
 	desc := "explicit"
 	if mi, ok := in.X.(*ssa.MakeInterface); ok {
 		desc = shortTypeString(mi.X.Type())
+	}
+	if x.panicFn != nil && x.useMode == 0 {
+		x.panicPoint(st, in.Pos(), "panic:"+desc, nil)
+		st.guard = x.w.ts.False()
+		return
 	}
 	x.oblige(st, "panic", desc, x.w.ts.False(), in.Pos())
 }
